@@ -24,10 +24,10 @@ impl Aff {
         self.bias.len()
     }
     pub fn to_lib(&self) -> AffFunc {
-        AffFunc::from_mats(arr2(&self.mat, self.indim()), Array1::from(self.bias.clone()))
+        AffFunc::from_mats(arr2(&self.mat, self.indim()), arr1(&self.bias))
     }
     pub fn to_poly(&self) -> Polytope {
-        Polytope::from_mats(arr2(&self.mat, self.indim()), Array1::from(self.bias.clone()))
+        Polytope::from_mats(arr2(&self.mat, self.indim()), arr1(&self.bias))
     }
     pub fn from_lib(f: &AffFunc) -> Aff {
         Aff {
@@ -70,17 +70,84 @@ impl Aff {
     }
 }
 
-pub fn arr2(rows: &[Vec<f64>], cols: usize) -> Array2<f64> {
-    let mut a = Array2::zeros((rows.len(), cols));
-    for (i, r) in rows.iter().enumerate() {
-        for (j, v) in r.iter().enumerate() {
-            a[[i, j]] = *v;
+thread_local! {
+    /// per-case state of the memory-layout lottery (0 = always standard layout)
+    static LAYOUT: std::cell::Cell<u64> = std::cell::Cell::new(0);
+    static LAYOUT_STATS: std::cell::Cell<(u64, u64)> = std::cell::Cell::new((0, 0));
+}
+
+/// Arm the memory-layout lottery for the current case: arrays handed to the library are then built,
+/// deterministically in (seed, property, case), in row-major, column-major (Fortran) or axis-reversed
+/// (negative stride) layout. All of them are `==` to the row-major array; the library must not care.
+pub fn layout_arm(seed: u64, prop: &str, case: u64) {
+    let mut h: u64 = 0x9E37_79B9_7F4A_7C15 ^ seed.wrapping_mul(0xD6E8_FEB8_6659_FD93) ^ case.wrapping_mul(0xA24B_AED4_963E_E407);
+    for b in prop.bytes() {
+        h = (h ^ b as u64).wrapping_mul(0x100_0000_01B3);
+    }
+    LAYOUT.with(|l| l.set(h | 1));
+}
+
+/// (non-standard 2-d arrays, non-standard 1-d arrays) built on this thread since the last call
+pub fn layout_stats_take() -> (u64, u64) {
+    LAYOUT_STATS.with(|s| s.replace((0, 0)))
+}
+
+fn layout_draw() -> u64 {
+    LAYOUT.with(|l| {
+        let mut x = l.get();
+        if x == 0 {
+            return 0;
         }
+        x ^= x << 13;
+        x ^= x >> 7;
+        x ^= x << 17;
+        l.set(x | 1);
+        (x >> 11) % 100
+    })
+}
+
+pub fn arr2(rows: &[Vec<f64>], cols: usize) -> Array2<f64> {
+    use ndarray::ShapeBuilder;
+    let r = rows.len();
+    let d = layout_draw();
+    let mut a = if d >= 70 && d < 85 { Array2::zeros((r, cols).f()) } else { Array2::zeros((r, cols)) };
+    let rev_cols = d >= 85 && d < 95;
+    let rev_rows = d >= 95;
+    for (i, row) in rows.iter().enumerate() {
+        for (j, v) in row.iter().enumerate() {
+            let ii = if rev_rows { r - 1 - i } else { i };
+            let jj = if rev_cols { cols - 1 - j } else { j };
+            a[[ii, jj]] = *v;
+        }
+    }
+    if rev_cols {
+        a.invert_axis(ndarray::Axis(1));
+    }
+    if rev_rows {
+        a.invert_axis(ndarray::Axis(0));
+    }
+    if d >= 70 && r * cols > 1 {
+        LAYOUT_STATS.with(|s| {
+            let (x, y) = s.get();
+            s.set((x + 1, y));
+        });
     }
     a
 }
 
 pub fn arr1(v: &[f64]) -> Array1<f64> {
+    let d = layout_draw();
+    if d >= 80 && v.len() > 1 {
+        let mut w = v.to_vec();
+        w.reverse();
+        let mut a = Array1::from(w);
+        a.invert_axis(ndarray::Axis(0));
+        LAYOUT_STATS.with(|s| {
+            let (x, y) = s.get();
+            s.set((x, y + 1));
+        });
+        return a;
+    }
     Array1::from(v.to_vec())
 }
 
